@@ -34,7 +34,7 @@ def _judge(g, obs, nprods):
         gl = OC.words_upto(got, L)
         if gl != want_lang:
             fails.append({"kind": "language", "op": op, "tags": tags,
-                          "detail": "differs on %r" % (sorted(gl ^ want_lang)[:3],), "result": got.describe()})
+                          "detail": "differs on %r" % (sorted(gl ^ want_lang, key=repr)[:3],), "result": got.describe()})
         for problem in shape(got):
             fails.append({"kind": "shape", "op": op, "tags": tags, "detail": problem, "result": got.describe()})
 
@@ -196,6 +196,35 @@ def c09_names(b: Tuple[int, int, int, int], which: int) -> bool:
     return chx.judge("C09", "c09_names", raw, (prods, names), obs, _names_oracle, realize_obs=False)
 
 
+# terminals whose values differ but print alike: the a#CNF# helper variables are named after the text
+SAMETEXT = [(1, "1"), (None, "None")]
+
+
+def _st_oracle(args, obs):
+    prods, terms = args
+    return _judge(enc.ref_cfg(prods, 2, terms=list(terms)), obs, len(prods))
+
+
+def c09_sametext(t: P2, p: int, which: int) -> bool:
+    """
+    pre: pinned(p=p, h0=t[0], l0=t[1], which=which)
+    pre: (p == 2) & ((0 <= which) & (which < 2))
+    pre: cfg_canonical(t, p, 2, 2, 2)
+    post: _
+    """
+    raw = (t, p, which)
+    prods = enc.decode_cfg(t, p, 2, 2, 2)
+    terms = SAMETEXT[enc.pick(which, 2)]
+    chx.enter("c09_sametext", raw)
+    obs = {}
+    for op in ("remove_useless_symbols", "remove_epsilon", "eliminate_unit_productions", "to_normal_form"):
+        g = enc.build_cfg(prods, 2, terms=list(terms))
+        obs[op] = chx.guarded(getattr(g, op))
+    nf = obs["to_normal_form"]
+    obs["is_normal_form"] = chx.guarded(nf[1].is_normal_form) if nf[0] == "ok" else ("ok", None)
+    return chx.judge("C09", "c09_sametext", raw, (prods, terms), obs, _st_oracle, realize_obs=False)
+
+
 def _sh_p2(tier):
     return [{"p": 0}, {"p": 1}] + product_pins(p=[2], h0=[0, 1], l0=[0, 1, 2])
 
@@ -247,4 +276,11 @@ CONDS = [
                    "second symbol not S / b",
           "thorough": "every body of length 4 over {S,V1,V2,a,b}"},
          FUNCS + ["CFG._get_next_free_variable", "CFG._get_productions_with_only_single_terminals"], RULE, assumptions=ASSUME),
+    Cond("C09", c09_sametext, lambda tier: product_pins(p=[2], h0=[0], l0=[2], which=[0, 1]) if tier == "quick"
+         else product_pins(p=[2], h0=[0, 1], l0=[0, 1, 2], which=[0, 1]),
+         {"quick": "the grammars of c09_p2 with 2 productions whose first production is S -> (2 symbols), over the "
+                   "terminals 1 / '1' or None / 'None' (values differ, texts agree: the helper variables "
+                   "to_normal_form names after a terminal's text must stay one per terminal)",
+          "thorough": "all grammars with 2 productions over these terminal pairs"},
+         FUNCS, RULE, assumptions=ASSUME),
 ]
